@@ -362,7 +362,11 @@ class NodeBlock:
                 # know where it was used: the statement is where it happened
                 e.pos = getattr(expression, "pos", None)
             for err, expr in self.catchexprs:
-                if not err or e.value == err.evaluate(environment):
+                if err:
+                    selector = err.evaluate(environment)
+                    if isExit(selector):
+                        return selector
+                if not err or e.value == selector:
                     return expr.evaluate(environment)
             raise
         finally:
@@ -482,7 +486,10 @@ class NodeClass:
         # class is defined in
         classEnv = environment.newEnv()
         for member in self.members:
-            result.addItem(member.identifier, member.evaluate(classEnv))
+            value = member.evaluate(classEnv)
+            if isExit(value):
+                return value
+            result.addItem(member.identifier, value)
         if self.info:
             result.info = self.info
         environment.put(self.identifier, result)
@@ -1218,6 +1225,8 @@ class NodeFuncall:
 
     def evaluate(self, environment):
         fn = self.func.evaluate(environment)
+        if isExit(fn):
+            return fn
         if not fn.isFunc():
             raise CklRuntimeError(
                 ValueString("ERROR"),
